@@ -90,6 +90,44 @@ func init() {
 				contains(ss, "if r != nil { binary.BigEndian.PutUint16(*r, binary.BigEndian.Uint16(q)) }"), true,
 				"DoH: the id is zeroed in a copy and the caller's id is put back into the reply of its own HTTP request")
 		}
+		// DoH: the request handed to the RoundTripper belongs to this call alone (its URL is a fresh copy of the
+		// template's URL, the query string is written into that copy); nothing reachable from the upstream is written
+		dx := ex.fn("pkg/upstream/doh/upstream.go", "Upstream", "exchange")
+		if dh != nil && dx != nil {
+			var top []string
+			for _, s := range dx.Body.List {
+				top = append(top, ex.str(s))
+			}
+			want := []string{"req := u.reqTemplate.WithContext(ctx)", "req.URL = new(urlpkg.URL)", "*req.URL = *u.urlTemplate", "req.URL.RawQuery = dnsQuery", "resp, err := u.rt.RoundTrip(req)"}
+			head := len(top) >= len(want) && strings.Join(top[:len(want)], "|") == strings.Join(want, "|")
+			// every write through `req` or through the receiver `u`, in both methods
+			var writes []string
+			for _, fd := range []*ast.FuncDecl{dh, dx} {
+				ast.Inspect(fd.Body, func(n ast.Node) bool {
+					switch st := n.(type) {
+					case *ast.AssignStmt:
+						for _, l := range st.Lhs {
+							ls := strings.TrimLeft(ex.str(l), "*(")
+							if strings.HasPrefix(ls, "u.") || strings.HasPrefix(ls, "req.") || ls == "u" {
+								writes = append(writes, ex.str(st))
+							}
+						}
+					case *ast.IncDecStmt:
+						ls := strings.TrimLeft(ex.str(st.X), "*(")
+						if strings.HasPrefix(ls, "u.") || strings.HasPrefix(ls, "req.") {
+							writes = append(writes, ex.str(st))
+						}
+					}
+					return true
+				})
+			}
+			ownWrites := strings.Join(writes, "|") == "req.URL = new(urlpkg.URL)|*req.URL = *u.urlTemplate|req.URL.RawQuery = dnsQuery"
+			ss := stmtStrings(ex, dh.Body)
+			ownQuery := contains(ss, "queryBuf := make([]byte, queryLen)") && contains(ss, "base64.RawURLEncoding.Encode(queryBuf[p:], wire)") &&
+				contains(ss, "r, err := u.exchange(ctx, utils.BytesToStringUnsafe(queryBuf))") && contains(ss, "resChan := make(chan res, 1)")
+			ex.setBool("c01DohRequestPerCall", head && ownWrites && ownQuery, true,
+				"DoH: every exchange encodes its query into a buffer of its own and writes it into a URL of its own (a fresh copy of the template's URL) before RoundTrip; no field of the upstream or of the shared request template is written")
+		}
 		qc := ex.fn("pkg/upstream/transport/conn_quic.go", "quicReservedExchanger", "ExchangeReserved")
 		if qc != nil {
 			ss := stmtStrings(ex, qc.Body)
